@@ -645,8 +645,8 @@ func (s *Session) routingKeyInfo(ctx context.Context, stmt string) (*routingKeyI
 	// TODO: it would be nice to mark hosts here but as we are not using the policies
 	// to fetch hosts we cant
 
-	if info.request.colCount == 0 {
-		// no arguments, no routing key, and no error
+	if info.request.colCount == 0 || len(info.request.columns) == 0 {
+		// no arguments (or none described), no routing key, and no error
 		return nil, nil
 	}
 
@@ -657,6 +657,12 @@ func (s *Session) routingKeyInfo(ctx context.Context, stmt string) (*routingKeyI
 		// proto v4 dont need to calculate primary key columns
 		types := make([]TypeInfo, len(info.request.pkeyColumns))
 		for i, col := range info.request.pkeyColumns {
+			if col < 0 || col >= len(info.request.columns) {
+				inflight.err = fmt.Errorf("gocql: prepared statement has partition key index %d but only %d bind columns", col, len(info.request.columns))
+				// don't cache this error
+				s.routingKeyInfoCache.Remove(stmt)
+				return nil, inflight.err
+			}
 			types[i] = info.request.columns[col].TypeInfo
 		}
 
